@@ -44,20 +44,18 @@ def run(ctx):
     # ---- (a)
     g = ctx.try_fn('a', GBS)
     if g is not None:
-        lg = g.logic()
-        body = lg.body
-        from engine import return_assigns, ok_payload, option_payload
-        from props.common import ret_ok_some
-        ok = False
-        for sp in return_assigns(body, 'ok')[0]:
-            if ret_ok_some(body, sp):
-                x = option_payload(body, ok_payload(body, sp))
-                if x is not None and has(fn_origins(lg, x, True), 'call:*SignerCertifierService::list_available_signed_entity_types'):
-                    ok = True
-        if ok:
-            R.ok('a', 'R5', 'get_beacon_to_sign: the offered entity derives from list_available_signed_entity_types', '', g.loc())
+        # every BeaconToSign built under get_beacon_to_sign takes its entity from list_available_signed_entity_types (wherever the
+        # construction sits: the body, a closure given to Option::map, a helper)
+        LA = 'call:*SignerCertifierService::list_available_signed_entity_types'
+        BTS = SG + 'entities::beacon_to_sign::BeaconToSign'
+        sites = [(h, list(c.args), c.line) for h, c in ctx.closure_sites(g, ['*::BeaconToSign::new'], depth=3)]
+        sites += [(h, list(rv[5]), ln) for h, rv, ln in ctx.closure_aggs(g, BTS, depth=3) if 'BeaconToSign::new' not in h.name]
+        bad = [ln for h, args, ln in sites if not any(has(ctx.deep(g, h, a_, True, up=3, depth=3), LA) for a_ in args)]
+        inst = 'get_beacon_to_sign: the offered entity derives from list_available_signed_entity_types'
+        if sites and not bad:
+            R.ok('a', 'R5', inst, '%d construction site(s)' % len(sites), g.loc())
         else:
-            R.violation('a', 'R5', 'get_beacon_to_sign: the offered entity derives from list_available_signed_entity_types', 'beacon:from-filter', '', g.loc())
+            R.violation('a', 'R5', inst, 'beacon:from-filter', 'BeaconToSign construction sites %d; not fed by the filtered list: lines %s' % (len(sites), bad), g.loc())
     la = ctx.try_fn('a', SG + 'services::certifier::SignerCertifierService::list_available_signed_entity_types')
     if la is not None:
         ll = la.logic()
@@ -84,37 +82,70 @@ def run(ctx):
     # ---- (b)
     p = ctx.try_fn('b', CPS)
     if p is not None:
-        lp = p.logic()
-        body = lp.body
         PUB = ['*::SignaturePublisher::publish']
         MARK = ['*::SignedBeaconStore::mark_beacon_as_signed']
         SIGN = ['*::SingleSigner::compute_single_signature']
         ctx.r1('b', CPS, Sink('mark_beacon_as_signed', MARK, 'ok'))
         ctx.r1('b', CPS, Sink('compute_single_signature', SIGN, 'ok'))
-        pubs = ctx.call_sites(body, PUB)
-        marks = ctx.call_sites(body, MARK)
+        pubs = ctx.closure_sites(p, PUB, depth=3)
+        marks = ctx.closure_sites(p, MARK, depth=3)
+        signs = ctx.closure_sites(p, SIGN, depth=3)
         problems = []
-        if not pubs or not marks:
-            problems.append('publish sites %d, mark sites %d' % (len(pubs), len(marks)))
-        for c in pubs:
+        if not pubs or not marks or not signs:
+            problems.append('sign sites %d, publish sites %d, mark sites %d' % (len(signs), len(pubs), len(marks)))
+
+        def steps(view, pats):
+            """calls in the body of `view` that are the step, or call a helper under which the step happens"""
+            out = []
+            root0 = getattr(view, '_orig', view).root()
+            for c in view.body.calls():
+                if any(glob_match(q, n) for q in pats for n in c.names()):
+                    out.append((c, None))
+                    continue
+                for n in c.names():
+                    for h in ws.by_name.get(n, []):
+                        if h.unit.crate == root0.unit.crate and h.root() is not root0 and h.kind in ('fn', 'assoc_fn') and \
+                                ctx.closure_sites(h, pats, depth=2):
+                            out.append((c, h))
+                            break
+            return out
+
+        # the body in which the publish step and the mark step meet (descending while one helper holds both)
+        view = p.logic()
+        for _ in range(3):
+            ps, ms = steps(view, PUB), steps(view, MARK)
+            both = [h for (c, h) in ps if h is not None and any(h2 is h for (_c2, h2) in ms)]
+            if both and not any(h is None for _c, h in ps + ms):
+                view = ctx.view(both[0]).logic()
+                continue
+            break
+        body = view.body
+        if not ps or not ms:
+            problems.append('publish and mark steps do not meet in one body (publish steps %d, mark steps %d in %s)' % (len(ps), len(ms), fn_short(view.name)))
+        for c, h in ps:
             tr = track_result(body, c.dest[0], +1)
             if not tr.discharged():
                 problems.append('the publish result is not propagated')
             # a failed publish must not reach mark
-            if any(m.bb in body.reach([b for _, b in tr.fail_edges]) for m in marks):
+            if any(m.bb in body.reach([b_ for _, b_ in tr.fail_edges]) for m, _h in ms):
                 problems.append('mark_beacon_as_signed reachable after a failed publish')
+        for h, c in pubs:
+            tr = track_result(h.body, c.dest[0], +1)
+            if not tr.discharged():
+                problems.append('the publish result is not propagated')
             # published signature = computed signature; entity of the beacon; message
-            if not has(fn_origins(lp, c.args[2], True), 'call:' + SIGN[0]):
+            if not has(ctx.deep(p, h, c.args[2], True, up=3, depth=3), 'call:' + SIGN[0]):
                 problems.append('published signature does not derive from compute_single_signature')
-            if not has(fn_origins(lp, c.args[1], 'adapters'), 'pty:BeaconToSign.signed_entity_type*'):
+            if not has(ctx.deep(p, h, c.args[1], 'adapters', up=3, depth=3), 'pty:BeaconToSign.signed_entity_type*'):
                 problems.append('published entity type is not the beacon\'s')
-            if not has(fn_origins(lp, c.args[3], 'adapters'), 'p#3'):
+            if not has(ctx.deep(p, h, c.args[3], 'adapters', up=3, depth=3), 'pty:ProtocolMessage'):
                 problems.append('published message is not the signed message')
-        for m in marks:
-            if not has(fn_origins(lp, m.args[1], 'adapters'), 'p#2'):
+        for h, m in marks:
+            og = ctx.deep(p, h, m.args[1], 'adapters', up=3, depth=3)
+            if not any(glob_match('pty:BeaconToSign', o) for o in og):
                 problems.append('the marked beacon is not the one that was signed')
-        for c in ctx.call_sites(body, SIGN):
-            if not has(fn_origins(lp, c.args[1], 'adapters'), 'p#3'):
+        for h, c in signs:
+            if not has(ctx.deep(p, h, c.args[1], 'adapters', up=3, depth=3), 'pty:ProtocolMessage'):
                 problems.append('the signed message is not the given protocol message')
         if problems:
             R.violation('b', 'R2', 'compute_publish_single_signature: sign < publish (errors propagate) < mark the same beacon', 'publish:mark', '; '.join(sorted(set(problems))), p.loc())
@@ -169,7 +200,7 @@ def run(ctx):
             _, hedges = ctx.success_edges_of(lt, [SM + 'handle_registration_result'])
             if any(b in body.reach([0], removed=hedges) for b in ready):
                 problems.append('ReadyToSign reachable without a handled registration outcome')
-            if not all(has(fn_origins(lt, c.args[0], True), 'call:' + REG[0]) for c in hr):
+            if not all(any(has(fn_origins(lt, a_, True), 'call:' + REG[0]) for a_ in c.args) for c in hr):
                 problems.append('the handled outcome is not the registration result')
             # the RegistrationRoundNotYetOpened outcome returns Unregistered: ReadyToSign unreachable from that arm (checked by construction sites)
         if problems:
